@@ -1,5 +1,4 @@
-(* Lemmas about Paths.v (C14): related_path is a right inverse of rustc's relative-path resolution
-   whenever the target's item path is not a prefix of the current module path. *)
+(* Lemmas about Paths.v (C14): related_path is a right inverse of rustc's relative-path resolution. *)
 From Coq Require Import String List Bool Arith Lia.
 From PVBld Require Import Generated.Keywords Names Paths Proofs.NamesP.
 Import ListNotations.
@@ -106,50 +105,64 @@ Proof.
   intros H. rewrite (IH i H). destruct l; [destruct i; cbn in H; tauto|]. reflexivity.
 Qed.
 
-(* the theorem: the emitted text, read by rustc inside module (map display p1), names the target *)
+Lemma firstn_le_eq {A} (a b : list A) i j : j <= i -> firstn i a = firstn i b -> firstn j a = firstn j b.
+Proof.
+  intros L H. rewrite <- (Nat.min_l j i L). rewrite <- !firstn_firstn. now rewrite H.
+Qed.
+
+Lemma skipn_nonempty {A} (l : list A) i : i < length l -> skipn i l <> [].
+Proof. intros L H. apply (f_equal (@length A)) in H. rewrite skipn_length in H. cbn in H. lia. Qed.
+
+(* the text for index i, read by rustc inside module (map display p1), names the target -- for every i up to the
+   common prefix that leaves a segment of p2 *)
+Lemma resolve_at p1 p2 i :
+  i <= length p1 -> firstn i p1 = firstn i p2 -> skipn i p2 <> [] ->
+  resolve_item (map display p1) (repeat "super" (length p1 - i) ++ map display (skipn i p2)) =
+    option_map (fun it => (map display (removelast p2), display it)) (last_opt p2).
+Proof.
+  intros L1 F NE.
+  assert (Hp1 : map display p1 = map display (firstn i p1) ++ map display (skipn i p1)).
+  { rewrite <- map_app. now rewrite firstn_skipn. }
+  assert (Hlen : length p1 - i = length (map display (skipn i p1))).
+  { rewrite map_length, skipn_length. reflexivity. }
+  unfold resolve_item. rewrite Hp1, Hlen. rewrite strip_supers_repeat.
+  rewrite no_super_in_display. rewrite last_opt_map_display.
+  rewrite (last_opt_skipn i p2 NE).
+  destruct (last_opt p2) eqn:LP; cbn [option_map]; [|reflexivity].
+  f_equal. f_equal.
+  rewrite removelast_map. rewrite <- map_app. f_equal.
+  rewrite F. now apply removelast_skipn.
+Qed.
+
+(* the theorem (after the repair of F-14d: for EVERY pair of paths): the emitted text, read by rustc inside module
+   (map display p1), names the target *)
 Lemma related_path_resolves p1 p2 :
-  is_prefix p2 p1 = false ->
+  p2 <> [] ->
   exists r, related_path p1 p2 = Some r /\
             resolve_item (map display p1) r =
               option_map (fun it => (map display (removelast p2), display it)) (last_opt p2).
 Proof.
-  intros NP. unfold related_path.
-  destruct (list_eqb p1 p2) eqn:E.
-  - apply list_eqb_eq in E. subst. exfalso.
-    assert (forall l, is_prefix l l = true) as R.
-    { induction l; cbn; [reflexivity|]. now rewrite String.eqb_refl. }
-    rewrite R in NP. discriminate.
-  - eexists. split; [reflexivity|].
-    set (i := common_prefix_len p1 p2).
-    pose proof (common_prefix_split p1 p2) as [F _]. fold i in F.
-    pose proof (common_prefix_le p1 p2) as [L1 L2]. fold i in L1, L2.
-    pose proof (is_prefix_skipn p2 p1 NP) as NE. fold i in NE.
-    assert (Hp1 : map display p1 = map display (firstn i p1) ++ map display (skipn i p1)).
-    { rewrite <- map_app. now rewrite firstn_skipn. }
-    assert (Hlen : length p1 - i = length (map display (skipn i p1))).
-    { rewrite map_length, skipn_length. reflexivity. }
-    unfold resolve_item. rewrite Hp1, Hlen. rewrite strip_supers_repeat.
-    rewrite no_super_in_display. rewrite last_opt_map_display.
-    rewrite (last_opt_skipn i p2 NE).
-    destruct (last_opt p2) eqn:LP; cbn [option_map]; [|reflexivity].
-    f_equal. f_equal.
-    rewrite removelast_map. rewrite <- map_app. f_equal.
-    rewrite F. now apply removelast_skipn.
+  intros NP. unfold related_path. eexists. split; [reflexivity|].
+  set (i0 := common_prefix_len p1 p2).
+  pose proof (common_prefix_split p1 p2) as [F _]. fold i0 in F.
+  pose proof (common_prefix_le p1 p2) as [L1 L2]. fold i0 in L1, L2.
+  assert (P2 : 0 < length p2) by (destruct p2; [congruence|cbn; lia]).
+  destruct ((i0 =? length p2)%nat && (0 <? i0)%nat) eqn:Q.
+  - apply andb_true_iff in Q. destruct Q as [Q1 Q2]. apply Nat.eqb_eq in Q1. apply Nat.ltb_lt in Q2.
+    apply resolve_at; [lia| |apply skipn_nonempty; lia].
+    apply (firstn_le_eq p1 p2 i0); [lia|exact F].
+  - apply resolve_at; [lia|exact F|]. apply skipn_nonempty.
+    apply andb_false_iff in Q. destruct Q as [Q|Q]; [apply Nat.eqb_neq in Q|apply Nat.ltb_ge in Q]; lia.
 Qed.
 
-(* and it is wrong exactly in the remaining case (finding F-14d): p2 a prefix of p1 *)
-Lemma related_path_eq_refuted :
-  exists p1 p2, p1 = p2 /\
-    related_path p1 p2 = Some ["b"] /\
-    resolve_item (map display p1) ["b"] = Some (["a"; "b"], "b") /\
-    (map display (removelast p2), display "b") = (["a"], "b").
-Proof. exists ["a"; "b"], ["a"; "b"]. repeat split. Qed.
-
-Lemma related_path_prefix_refuted :
-  exists p1 p2, is_prefix p2 p1 = true /\ p1 <> p2 /\
-    related_path p1 p2 = Some ["super"] /\
-    resolve_item (map display p1) ["super"] = None.
-Proof. exists ["a"; "b"; "c"], ["a"; "b"]. repeat split. discriminate. Qed.
+(* the witnesses of finding F-14d (target path = current module path; target path a proper prefix of it): before the
+   repair the first gave ["b"] (a child of the current module) and the second ["super"] (a module) *)
+Example related_path_prefix_fixed :
+  related_path ["a"; "b"] ["a"; "b"] = Some ["super"; "b"] /\
+  resolve_item (map display ["a"; "b"]) ["super"; "b"] = Some (["a"], "b") /\
+  related_path ["a"; "b"; "c"] ["a"; "b"] = Some ["super"; "super"; "b"] /\
+  resolve_item (map display ["a"; "b"; "c"]) ["super"; "super"; "b"] = Some (["a"], "b").
+Proof. repeat split. Qed.
 
 (* non-vacuity: keyword segments, several levels up and down *)
 Example related_path_nonvacuous :
